@@ -317,7 +317,7 @@ VARIANTS += [
     V("C09", "benign: capitalise helper expression", HELP, "        converted_name = \"\".join(part[0].upper() + part[1:] for part in name_parts if part)", "        converted_name = \"\".join([part[0].upper() + part[1:] for part in name_parts if part])", None),
 ]
 VARIANTS += [
-    V("C07", "returned variable taken for a class again", MH, "        elif expr.name != \"None\" and isinstance(expr.node, mp_nodes.Var):\n            # The name of a variable or parameter is not the name of its type\n            return sds_types.UnknownType()\n", "", "C07.INFER-TABLE"),
+    V("C07", "returned variable taken for a class again", MH, "        elif isinstance(expr.node, mp_nodes.Var):\n            # The name of a variable or parameter is not the name of its type\n            return sds_types.UnknownType()\n", "", "C07.INFER-TABLE"),
 ]
 VARIANTS += [
     V("C01", "new silenced attribute diagnostic", GA, "fullname = key.node.target.type.fullname", "fullname = key.node.target.type.full_name  # type: ignore[attr-defined]", "C01.LIBAPI"),
@@ -628,4 +628,8 @@ VARIANTS += [
     V("C07", "inferred results share the first docstring entry of their type again", VIS,
       "                            if hash(docstring.type) == hash(result_type) and not any(\n                                docstring is matched for matched in matched_docstrings\n                            ):",
       "                            if hash(docstring.type) == hash(result_type):", "C07.RESULT-NAMES"),
+]
+VARIANTS += [
+    V("C02", "type variable recorded under mypy's dotted name again", VIS, "name=mypy_type.name.split(\".\")[-1], upper_bound=type_", "name=mypy_type.name, upper_bound=type_", "C02.NAME-PIPELINE"),
+    V("C02", "benign: last segment of the type variable name taken with rpartition", VIS, "name=mypy_type.name.split(\".\")[-1], upper_bound=type_", "name=mypy_type.name.rpartition(\".\")[2], upper_bound=type_", None),
 ]
